@@ -80,8 +80,10 @@ class Unit:
         self.name = f'{self.prop}:{self.qual}' + (f'[{self.variant}]' if getattr(self, 'variant', None) else '')
 
     # -- ignore patterns
-    def is_ignored_call(self, src):
-        for pat in DEFAULT_IGNORED_CALLS + tuple(self.ignore_calls):
+    def is_ignored_call(self, src, local_root=False):
+        # the default patterns name module-level objects (`logger`, `util`, ...): a local variable of that name is not ignored
+        pats = tuple(self.ignore_calls) if local_root else DEFAULT_IGNORED_CALLS + tuple(self.ignore_calls)
+        for pat in pats:
             if fnmatch.fnmatchcase(src, pat):
                 return True
         return False
